@@ -11,49 +11,17 @@
 EXTENDS Rpc, Json, IOUtils, TLC
 
 Log == ndJsonDeserialize(IOEnv.TRACE)
-Ifaces == JsonDeserialize(IOEnv.IFACES)
+IfacesRaw == JsonDeserialize(IOEnv.IFACES)
+Ifaces == [n \in DOMAIN IfacesRaw |-> Prepare(IfacesRaw[n])]     \* constant: evaluated once
 VARIABLES l, nrej
 vars == <<l, nrej>>
-Has(r, f) == f \in DOMAIN r
-Tag(cond, tag) == IF cond THEN {} ELSE {tag}
 UnionOver(n, F(_)) == UNION {F(i) : i \in 1..n}
-
-\* descriptor methods are keyed by the call name used in the command (several call names may share a method)
-InSeq(x, s) == \E j \in 1..Len(s) : s[j] = x
-MethodOf(I, name) == I.methods[CHOOSE i \in 1..Len(I.methods) : InSeq(name, I.methods[i].calls)]
-NameStr(I, h) == I.methods[h].label
-MapErr(errs) == {IF x = E_Src THEN 12 ELSE x : x \in errs}
-
-CallFails(I, c) ==
-  LET raw == c.m = "Raw"
-      tampered == raw \/ c.seen # c.req
-      D == Dispatch(I, c.seen) IN
-  (IF raw THEN {} ELSE Tag(c.req = Request(I, MethodOf(I, c.m), c.args), "request-framing"))
-  \cup
-  (IF ~D.ok
-   THEN Tag(c.dstatus \in MapErr(D.errs), "dispatch-status")
-        \cup Tag(c.hlog = <<>>, "handler-ran-on-error")
-        \cup Tag(c.rep = <<>>, "reply-sent-on-error")
-        \cup (IF raw THEN {} ELSE Tag(c.st_invoke # 0, "invoke-succeeded-without-reply"))
-   ELSE LET M == I.methods[D.h] IN
-        Tag(c.dstatus = 0, "dispatch-status")
-        \cup Tag(Len(c.hlog) = 1, "handler-count")
-        \cup (IF Len(c.hlog) = 1
-              THEN Tag(c.hlog[1].m = M.label, "wrong-handler")
-                   \cup Tag(c.hlog[1].args = D.args, "handler-arguments")
-                   \cup Tag(c.rep = Enc(M.ret, c.hlog[1].ret), "reply-is-handlers-return")
-                   \cup (IF tampered THEN {}
-                         ELSE Tag(c.hlog[1].args = c.args, "arguments-as-sent")
-                              \cup Tag(c.st_invoke = 0 /\ Has(c, "ret") /\ c.ret = c.hlog[1].ret, "invoke-result")
-                              \cup Tag(c.rep_left = 0, "reply-consumed"))
-              ELSE {})
-        \cup Tag(c.req_left = Len(c.seen) - D.used, "request-consumed"))
 
 Fails(e) ==
   IF e.e \in {"UB", "Crash", "Exc", "Timeout", "BadCmd", "Race"} THEN {"abnormal"}
   ELSE IF e.e # "RPC" THEN {}
   ELSE LET I == Ifaces[e.iface] IN
-       Tag((IF e.iface = "calc" THEN e.hash_calc ELSE e.hash_small) = InterfaceHash(I.name), "interface-hash")
+       Tag((IF e.iface = "calc" THEN e.hash_calc ELSE e.hash_small) = I.hash, "interface-hash")
        \cup UnionOver(Len(e.calls), LAMBDA i : CallFails(I, e.calls[i]))
 
 Init == l = 1 /\ nrej = 0
